@@ -15,7 +15,8 @@
   op       a:<rec>  Add            s  one loop iteration      x  stop
            p:<rec>  Append         d:<rec>|<rec>|…  SendDirect (d:- for none)
            c:<q|->,<w|->,<b|->,<z|->  ApplyConfig
-  rec      <id>:<time>:<hex of the encoded record>   or   <id>:<time>:#<n>  (n zero bytes stand for a long encoding)
+  rec      <id>:<time>:!   a record whose serialisation fails (Append drops it)   or
+           <id>:<time>:<hex of the encoded record>   or   <id>:<time>:#<n>  (n zero bytes stand for a long encoding)
   pack     <S|D>:<count>:<zipped 0|1>:<o|s|d<k>>:<payload length>:<hash>:<ids>
            (gzip is the identity here: length and hash are those of the uncompressed payload)
   state    buf=<ids> count=<n> len=<n> first=<t> queue=<ids> set=<w>,<q>,<b>,<z> stopped=<0|1>
@@ -30,14 +31,16 @@ structure DRec where
   id : Nat
   time : Int
   bytes : Bytes
+  bad : Bool := false   -- the record cannot be serialised (`<id>:<time>:!`)
 
-def dcodec : Codec DRec := ⟨(·.bytes), (·.time)⟩
+def dcodec : Codec DRec := ⟨(·.bytes), (·.time), (·.bad)⟩
 def dzip : Zip := ⟨id⟩
 
 def parseVariant : String → Option Variant
   | "fixed" => some Variant.fixed
   | "found" => some Variant.asFound
   | "noreset" => some Variant.returnOnError
+  | "countfirst" => some Variant.countFirst
   | _ => none
 
 def parseSettings (s : String) : Option Settings :=
@@ -58,8 +61,9 @@ def parseRec (s : String) : Option DRec :=
   match s.splitOn ":" with
   | [i, t, h] => do
     let i ← parseNat i; let t ← parseInt t
+    if h == "!" then return ⟨i, t, [], true⟩
     let h ← (if h.startsWith "#" then (parseNat (h.drop 1).toString).map (List.replicate · 0) else ofHex h)
-    pure ⟨i, t, h⟩
+    pure ⟨i, t, h, false⟩
   | _ => none
 
 def parseOp (s : String) : Option (In DRec) :=
